@@ -117,6 +117,7 @@ func (s *S) index1() {
 	c.Class("index:" + class)
 	c.Eval(keyOfCL("index", pairs), len(pairs) >= 2)
 	rep := map[string]interface{}{"pairs(cell:label)": clRep(pairs), "class": class}
+	s.cur = rep
 
 	method := "Add"
 	defer func() {
@@ -510,6 +511,7 @@ func (s *S) findCase(fixed [][]uint64) {
 	}
 	c.Class("find:" + class)
 	rep := map[string]interface{}{"unions": shown, "class": class}
+	s.cur = rep
 	// oracle: exact region of every index set
 	want := map[uint]lset{}
 	for mask := uint(1); mask < 1<<uint(n); mask++ {
